@@ -871,3 +871,61 @@ Definition ok_resolve (gs : list gt_session) (tl : list (Z * list (Z * nat))) (t
                      | None => false
                      end
   end.
+
+(* ------------------------------------------------------------------ record side: the dlopen() wrapper *)
+(* libmcount/wrap.c dlopen(): what one traced thread does, as a tree.  [ARec a] is a traced call
+   or return at address a (mcount_entry/mcount_exit read the clock and write a record);
+   [ADlopen base tab ctor] is a call of the wrapper: real_dlopen() maps the library at [base] and
+   runs its static initialisers [ctor] (ELF constructors, C++ global constructors - they may record
+   and may call dlopen again) before it returns; afterwards the wrapper sends the DLOP message
+   (time stamp, base, name) that ends up in task.txt.
+   [early = true] is the code as it is: the clock is read on entry of the wrapper, BEFORE
+   real_dlopen().  [early = false] reads it where the message is built, after real_dlopen().
+   Every clock read returns a later value than the previous one of the thread. *)
+Inductive act :=
+| ARec (a : Z)
+| ADlopen (base : Z) (tab : symtab) (ctor : list act).
+
+Definition rout := (Z * list (Z * Z) * list dlib)%type.      (* clock, records (time, addr), DLOP messages *)
+
+Fixpoint run_act (early : bool) (x : act) (clk : Z) : rout :=
+  match x with
+  | ARec a => (clk + 1, [(clk, a)], [])
+  | ADlopen base tab ctor =>
+      let run_l :=
+        (fix go (l : list act) (c : Z) : rout :=
+           match l with
+           | [] => (c, [], [])
+           | y :: r => let '(c1, r1, d1) := run_act early y c in
+                       let '(c2, r2, d2) := go r c1 in (c2, r1 ++ r2, d1 ++ d2)
+           end) in
+      if early
+      then let '(c2, rs, ds) := run_l ctor (clk + 1) in (c2, rs, ds ++ [mkDl clk base tab])
+      else let '(c2, rs, ds) := run_l ctor clk in (c2 + 1, rs, ds ++ [mkDl c2 base tab])
+  end.
+
+Fixpoint run_acts (early : bool) (l : list act) (c : Z) : rout :=
+  match l with
+  | [] => (c, [], [])
+  | y :: r => let '(c1, r1, d1) := run_act early y c in
+              let '(c2, r2, d2) := run_acts early r c1 in (c2, r1 ++ r2, d1 ++ d2)
+  end.
+
+(* the analysis side receives the DLOP messages in the order they were sent *)
+Definition dl_list (msgs : list dlib) : list dlib := fold_left (fun l d => insert_dl d l) msgs [].
+
+(* run-time checker of the ordering invariant on a real recording: a library's load event is not
+   later than any record at an address inside it.  loads: (DLOP time, base, extent) *)
+Definition ok_load_order (loads : list (Z * Z * Z)) (recs : list (Z * Z)) : bool :=
+  forallb (fun r => match r with (t, a) =>
+    forallb (fun l => match l with (lt, base, ext) =>
+      if (base <=? a) && (a <? base + ext) then lt <=? t else true end) loads end) recs.
+
+(* the name shown for a record of a real run against the ground truth (verdict only where the
+   ground truth has a symbol) *)
+Definition ok_resolve_name (gs : list gt_session) (tl : list (Z * list (Z * nat))) (tid t a : Z)
+           (ans : option str) : bool :=
+  match expected gs tl tid t a with
+  | Some (Some s) => match ans with Some nm => str_eqb (s_name s) nm | None => false end
+  | _ => true
+  end.
